@@ -48,6 +48,9 @@ def default_cfg():
         "neg_source_rs": False,
         "zero_params": 0.0,
         "deprecated_iq": False,
+        "collapse_inputs": False,
+        "via_file": 0.0,
+        "inf_limits": False,
         "mega": False,
     }
 
@@ -164,6 +167,9 @@ class Gen:
                 lim[k] = [self.r.pick([-40.0, 0.0, 26.0]), self.r.pick([24.0, 30.0, 85.0, 125.0])]
             else:
                 lim[k] = [round(lo, 9), round(max(hi, lo), 9)]
+            if self.cfg.get("inf_limits") and self.r.chance(0.3):
+                # an unbounded side is legal: limits are any two numbers
+                lim[k] = [lim[k][0], float("inf")] if k != "tp" or self.r.chance(0.5) else [-float("inf"), lim[k][1]]
         return lim
 
     def _limit_base(self, k):
@@ -338,7 +344,10 @@ class Gen:
             p["rt"] = rt
         if kind in LOADS and self.r.chance(self.cfg["loss_flag"]):
             p["loss"] = True
-        return mk(kind, name, p, self.limits_for(kind))
+        spec = mk(kind, name, p, self.limits_for(kind))
+        if self.cfg.get("via_file") and self.r.chance(self.cfg["via_file"]):
+            spec["via_file"] = True  # built with Kind.from_file from a stored TOML file
+        return spec
 
     def mux_rs(self, spec, ninputs):
         if self.r.chance(0.5):
@@ -513,6 +522,8 @@ class Gen:
                 n = self.r.pick(chain)
                 dc = False
         if m.del_ambiguous(n, dc):
+            if self.cfg.get("collapse_inputs"):
+                return {"op": "del_comp", "name": n, "del_childs": False, "collapse": True}
             dc = True
         return {"op": "del_comp", "name": n, "del_childs": dc}
 
